@@ -4,3 +4,5 @@
 
 #[path = "server/c14.rs"]
 mod c14;
+#[path = "server/c16.rs"]
+mod c16;
